@@ -61,15 +61,17 @@ struct IsTriviallySerializable<T, typename std::enable_if_t<
 };
 #endif
 
+// An empty array still occupies storage but contributes no bytes to the stream.
 template <typename T, size_t N>
 struct IsTriviallySerializable<std::array<T, N>,
-                               typename std::enable_if_t<IsTriviallySerializable<T>::value>>
+                               typename std::enable_if_t<IsTriviallySerializable<T>::value && (N > 0)>>
     : std::true_type {
 };
 
 template <typename T, size_t... Dims>
 struct IsTriviallySerializable<yardl::FixedNDArray<T, Dims...>,
-                               typename std::enable_if_t<IsTriviallySerializable<T>::value>>
+                               typename std::enable_if_t<IsTriviallySerializable<T>::value &&
+                                                         ((Dims * ... * 1) > 0)>>
     : std::true_type {
 };
 
